@@ -220,3 +220,85 @@ def lemma_readonly_guards():
 
 SPECS = [CheckSanity, Sane, SaveIndex]
 INLINE = []
+
+
+# ======================================================================================
+class RestoreIndex(SanitySpec):
+    """FileStorage._restore_index: a saved index is handed to the open ONLY after _sane accepted it against the file -
+    (index, pos, tid) with exactly the loaded index and position and the tid _sane reports - and None in every other
+    case (no index file, unreadable, incomplete, rejected); nothing is written (an old dict-based index would be
+    converted and saved, unless read-only: that branch is outside, the loaded index here is an fsIndex)."""
+    func = 'ZODB.FileStorage.FileStorage:FileStorage._restore_index'
+    cases = ('writable', 'read-only')
+
+    def setup(self, c, case=None):
+        h, index = self.mk(c, read_only=(case == 'read-only'))
+        c.obj(h.self).f['_file_name'] = VStr('<Data.fs>')
+        c.obj(h.self).f['__name__'] = VStr('<Data.fs>')
+        c.obj(index).cls = 'ZODB.fsIndex:fsIndex'
+        c.obj(index).f['_data'] = c.fresh_opaque('oobtree')      # a current fsIndex: its _data is an OOBTree
+        c.ghost['rx'] = {'h': h, 'index': index, 'pos': c.fresh_int('saved_pos'), 'sane': [], 'opened': []}
+        return {'self': h.self}
+
+    def hooks(self, c):
+        g = lambda cc: cc.ghost['rx']
+
+        def exists(cc, interp, args, kwargs, node):
+            return VBool(z3.Bool(fresh_name('index_file_exists')))
+
+        def load(cc, args, kwargs, node):
+            i = cc.choose([True, True, True, True], 'index-file')
+            if i == 0:
+                raise RaiseSig(VExc('builtins:Exception'))
+            pairs = []
+            if i in (1, 3):
+                pairs.append((VStr('index'), g(cc)['index']))
+            if i in (1, 2):
+                pairs.append((VStr('pos'), g(cc)['pos']))
+            g(cc)['complete'] = (i == 1)
+            return cc.new_obj('pydict', meta={'pairs': pairs})
+
+        def sane(cc, args, kwargs, node):
+            g(cc)['sane'].append(tuple(args[1:]))
+            if cc.choose([True, True], '_sane') == 1:
+                return VInt(z3.IntVal(0))
+            t = cc.fresh_bytes(8, 'sane_tid')
+            g(cc)['tid'] = t
+            return t
+
+        def open_(cc, args, kwargs, node):
+            g(cc)['opened'].append(tuple(args))
+            raise Unsupported('open() in _restore_index', node)
+
+        def isinst(cc, interp, args, kwargs, node):
+            return None
+        return {'opaque_isinstance': lambda cc, v, clsname: False if v.tag == 'oobtree' else None,
+                'prim:os.path.exists': exists, 'call:ZODB.fsIndex:fsIndex.load': load,
+                'call:ZODB.FileStorage.FileStorage:FileStorage._sane': sane, 'open': open_}
+
+    def modifies(self, c, E):
+        return set()
+
+    def outcomes(self, c, E):
+        g = c.ghost['rx']
+
+        def post(cc, E, r):
+            if isinstance(r, VNone):
+                return [('None-only-without-an-accepted-index', 'tid' not in g)]
+            ok = isinstance(r, VTuple) and len(r.items) == 3
+            out = [('returns-(index, pos, tid)', ok)]
+            if ok:
+                called = 'tid' in g and len(g['sane']) == 1 and len(g['sane'][0]) == 2 and \
+                    isinstance(g['sane'][0][0], VRef) and g['sane'][0][0].id == g['index'].id and \
+                    isinstance(g['sane'][0][1], VInt)
+                out += [('only-after-_sane-accepted-exactly-this-index-and-position',
+                         (g['sane'][0][1].t == g['pos'].t) if called else False),
+                        ('the-loaded-index', isinstance(r.items[0], VRef) and r.items[0].id == g['index'].id),
+                        ('the-saved-position', (r.items[1].t == g['pos'].t) if isinstance(r.items[1], VInt) else False),
+                        ('the-tid-_sane-reports', r.items[2] is g.get('tid'))]
+            out.append(('nothing-written', not g['opened']))
+            return out
+        return [Outcome('answer', post=post, result=lambda cc, E: NONE)]
+
+
+SPECS.append(RestoreIndex)
